@@ -207,6 +207,23 @@ def _e0_rules(rep, prog):
             ok = bool(g) and all(FB.dominates(g[0], s) for s in spect)
         rep.add('WINDOW.clamp', nm, where(bb, cs[0].line if cs else bb['l']),
                 'the clamp of %s is applied on every path to the spectrum computation' % nm, ok)
+    # the clamped window must not be empty: nothing after the clamps compares the two bounds
+    rep.rule('WINDOW.nonempty', 'after `ebb2 = min(ebb2, e0)` a request whose lower bound is not below the (clamped) upper bound - a window that '
+             'lies above the available energy - is refused: a throw guarded by a comparison of ebb1 with ebb2 (or with e0) lies in '
+             'decay0_bb or genbbsub on the way to the spectrum computation; otherwise events are generated that cannot lie in the window')
+    def _cmp_guard(Fx):
+        out = []
+        for b_, arm in Fx.throw_guards():
+            t_ = ir.fmt(b_.stmt[1])
+            if 'ebb1' in t_ and ('ebb2' in t_ or 'e0' in t_):
+                out.append(b_)
+        return out
+    wg = _cmp_guard(FB) + _cmp_guard(FG)
+    rep.add('WINDOW.nonempty', 'empty-window-refused', where(bb, clamp[-1][1].line if clamp else bb['l']),
+            'a window left empty by the clamp to the available energy is refused before the spectrum is computed', bool(wg),
+            None if wg else ['no throw in decay0_bb / genbbsub is guarded by a comparison of ebb1 with ebb2 or e0: e.g. Mo100 2nubb (Q = 3.034 MeV) '
+                             'with `--energy-min 3.5` is accepted, ebb2 is clamped to 3.034 < ebb1, the integration fails to converge and the '
+                             'events delivered have lepton energy sums outside the requested window'])
     r2 = {'re2s': None, 're2f': None}
     for n in FB.nodes(kind='assign'):
         if n.stmt[1] == ('var', 're2s'):
